@@ -85,6 +85,143 @@ theorem ie_exact (s : Sess) (r : Report) (info : URRInfo) (h : alGet s.urrs r.ur
     · cases ht
     · simp at ht; exact ⟨ht.1.symm, ht.2.symm⟩
 
+/-! ### where a report goes: every datagram `ServeReport` sends — downlink-data notifications and the usage batch, in any
+mixture — goes to the one destination worked out for the reporting session's node -/
+
+/-- `c'` extends `c` by outputs whose datagrams all go to `dest` -/
+def OnlyTo (dest : String) (c c' : Ctx) : Prop :=
+  ∃ l, c'.outs = c.outs ++ l ∧ ∀ o ∈ l, ∀ to m, o = Out.send to m → to = dest
+
+theorem OnlyTo.refl (dest : String) (c : Ctx) : OnlyTo dest c c := ⟨[], by simp, fun o ho => by cases ho⟩
+
+theorem OnlyTo.trans {dest : String} {a b c : Ctx} (h1 : OnlyTo dest a b) (h2 : OnlyTo dest b c) : OnlyTo dest a c := by
+  obtain ⟨l1, e1, p1⟩ := h1
+  obtain ⟨l2, e2, p2⟩ := h2
+  refine ⟨l1 ++ l2, by rw [e2, e1, List.append_assoc], ?_⟩
+  intro o ho
+  rcases List.mem_append.mp ho with h | h
+  · exact p1 o h
+  · exact p2 o h
+
+theorem sendReq_onlyTo (st : State) (dest : String) (m : Msg) (c : Ctx) : OnlyTo dest c (st.sendReq dest m c).2 := by
+  refine ⟨[Out.send dest { m with seq := st.txSeq.setWidth 24 }], by simp [State.sendReq, Ctx.emit], ?_⟩
+  intro o ho to m' he
+  simp only [List.mem_singleton] at ho
+  subst ho
+  cases he
+  rfl
+
+theorem serveLoop_onlyTo (x : Seid) (dest : String) (items : List RepItem) : ∀ (st : State) (c : Ctx) (us : List Report),
+    OnlyTo dest c (serveLoop x dest items st c us).2.1 := by
+  induction items with
+  | nil => intro st c us; exact OnlyTo.refl dest c
+  | cons it rest ih =>
+    intro st c us
+    cases it with
+    | usar r => simp only [serveLoop]; exact ih st c _
+    | dldr pdr act pkt =>
+      simp only [serveLoop]
+      split
+      · exact OnlyTo.refl dest c
+      · cases hl : (st.pushPkt x pdr act pkt).lnode.lookup x with
+        | none => simp only []; exact ih _ c us
+        | some s =>
+          simp only []
+          exact OnlyTo.trans (sendReq_onlyTo _ dest _ c) (ih _ _ us)
+
+/-- **destination**: whatever the notification carries — any number of downlink-data reports and usage reports, in any
+    order — every datagram it causes goes to the destination of the node that owns the reporting session at that moment
+    (`reportDest`: the IPv4 node id's address, else the address that node associated from); none goes anywhere else -/
+theorem report_goes_to_owner (st : State) (x : Seid) (items : List RepItem) (c : Ctx) (s : Sess) (dest : String)
+    (h : st.lnode.lookup x = some s) (hd : reportDest (st.nodes.getD s.rnode default) = some dest) :
+    OnlyTo dest c (serveReport st x items c).2 := by
+  unfold serveReport
+  simp only [h, hd]
+  have hl := serveLoop_onlyTo x dest items st c []
+  rcases hs : serveLoop x dest items st c [] with ⟨st1, c1, o⟩
+  rw [hs] at hl
+  simp only [] at hl
+  cases o with
+  | none => exact hl
+  | some us =>
+    simp only []
+    split
+    · exact hl
+    · cases hl1 : st1.lnode.lookup x with
+      | none => exact hl
+      | some s1 =>
+        simp only []
+        exact OnlyTo.trans hl (sendReq_onlyTo _ dest _ c1)
+
+/-- after a takeover by an IPv4 node id the reports of the node's sessions go to the NEW owner — the destination is worked
+    out per report from the node's current id, nothing is remembered from before -/
+theorem after_takeover_new_owner (st : State) (h : Nat) (p : String) (hh : h < st.nodes.length) :
+    reportDest ((st.takeover (some (.v4 p)) h).nodes.getD h default) = some p := by
+  simp [State.takeover, State.updateNodeID, State.modNode, reportDest, List.getD, List.getElem?_modify, hh]
+
+/-- the takeover finding (C05 `takeoverNode`) as it shows here: a takeover by an IPv6 / FQDN node id renames the OLD node
+    object, which keeps the address the old node associated from — that is where the reports keep going -/
+theorem after_takeover_non_ipv4_old_address (st : State) (h : Nat) (nid : NodeId) (hn : ∀ p, nid ≠ .v4 p)
+    (hh : h < st.nodes.length) :
+    reportDest ((st.takeover (some nid) h).nodes.getD h default) = some (st.nodes.getD h default).addr := by
+  have hm : ((st.takeover (some nid) h).nodes.getD h default) = { (st.nodes.getD h default) with id := nid } := by
+    simp [State.takeover, State.updateNodeID, State.modNode, List.getD, List.getElem?_modify, hh]
+  rw [hm]
+  exact non_ipv4_node_falls_back _ (by intro p; exact hn p)
+
+/-- one IE, any carrier (`extra` = TERMR / IMMER / nothing; with or without dropping removed URRs): id, trigger word and the
+    measured values are those of THE report it was made from -/
+theorem ie_from (s : Sess) (r : Report) (x : BitVec 32) (b : Bool) (ie : UsarIE) (h : (emitOne s r x b).2 = some ie) :
+    ie.urr = r.urr ∧ ie.trig = r.trig ||| x ∧
+    (∀ f cs, ie.vol = some (f, cs) → cs = r.meas.take 6) ∧ (∀ d, ie.dur = some d → d = r.meas.getD 8 0) ∧
+    (∀ a b', ie.times = some (a, b') → a = r.meas.getD 6 0 ∧ b' = r.meas.getD 7 0) := by
+  unfold emitOne at h
+  split at h
+  · cases h
+  · rename_i info _
+    simp only [Option.some.injEq] at h
+    subst h
+    refine ⟨rfl, rfl, ?_, ?_, ?_⟩
+    · intro f cs hv
+      cases hvol : info.volum <;> simp [hvol] at hv
+      exact hv.2.symm
+    · intro d hd
+      cases hdur : info.durat <;> simp [hdur] at hd
+      exact hd.symm
+    · intro a b' ht
+      split at ht
+      · cases ht
+      · simp at ht; exact ⟨ht.1.symm, ht.2.symm⟩
+
+/-- **a message carrying several usage reports**: every usage-report IE in it was made from one of the reports handed over
+    — its own URR id, its own trigger word (plus the carrier's flag, nothing of a neighbour's), its own counters, times
+    and duration — whatever the number of reports, their order, and the URRs they name -/
+theorem each_ie_from_its_report (rs : List Report) (x : BitVec 32) (b : Bool) : ∀ (s : Sess) (ie : UsarIE),
+    ie ∈ (emitUsars s rs x b).2 →
+    ∃ r ∈ rs, ie.urr = r.urr ∧ ie.trig = r.trig ||| x ∧
+      (∀ f cs, ie.vol = some (f, cs) → cs = r.meas.take 6) ∧ (∀ d, ie.dur = some d → d = r.meas.getD 8 0) ∧
+      (∀ a b', ie.times = some (a, b') → a = r.meas.getD 6 0 ∧ b' = r.meas.getD 7 0) := by
+  induction rs with
+  | nil => intro s ie h; simp [emitUsars] at h
+  | cons r rest ih =>
+    intro s ie h
+    simp only [emitUsars, List.mem_append, Option.mem_toList] at h
+    rcases h with h | h
+    · exact ⟨r, by simp, ie_from s r x b ie h⟩
+    · obtain ⟨r', hr', hp⟩ := ih _ ie h
+      exact ⟨r', by simp [hr'], hp⟩
+
+/-- … and no more IEs than reports -/
+theorem ies_le_reports (rs : List Report) (x : BitVec 32) (b : Bool) : ∀ (s : Sess), (emitUsars s rs x b).2.length ≤ rs.length := by
+  induction rs with
+  | nil => intro s; simp [emitUsars]
+  | cons r rest ih =>
+    intro s
+    simp only [emitUsars, List.length_append, List.length_cons]
+    have h1 : (emitOne s r x b).2.toList.length ≤ 1 := by cases (emitOne s r x b).2 <;> simp
+    have h2 := ih (emitOne s r x b).1
+    omega
+
 /-- start / end time are left out exactly for the START, STOPT and MACAR triggers -/
 theorem times_absent_iff (s : Sess) (r : Report) (info : URRInfo) (h : alGet s.urrs r.urr = some info) :
     ∀ ie, (emitOne s r 0 false).2 = some ie →
